@@ -1,7 +1,7 @@
 """C20 — object identifiers round-trip between text, arcs and encoding"""
 from common import *
 
-THEOREMS = []
+THEOREMS = ['fromStr_eq_spec', 'parseU32_eq', 'encodeItem_eq', 'checkContent_iff', 'checkContent_eq_subIds', 'fromPrimitive_exhausted', 'skipPrimitive_exhausted', 'skipIfPrimitive_exhausted', 'take_skip_alike', 'components_eq', 'components_ok_iff', 'toU32_eq', 'toU32_base128', 'numbers_arcs', 'decimal_eq', 'display_numbers', 'display_arcs', 'fromStr_some', 'display_fromStr', 'fromStr_dotted', 'fromStr_display_fromStr']
 RULE = ("run <mode> T oid / oidskip / oidskipif on OID contents: all of length 0-2, structured longer ones with sub-identifiers of "
         "1-6 octets at every size-class boundary; oid.parse on grammar-generated dotted strings with arcs at "
         "{0,1,2,39,40,79,80,127,128,2^14+-1,2^21+-1,2^25,2^28+-1,2^32-81,2^32-80,2^32-1,2^32,2^64} plus malformed text; "
@@ -106,5 +106,5 @@ def nontrivial(req, ans):
     return ans.startswith("ok")
 
 LEVEL = "proof"
-LEVEL_TEXT = "see THEOREMS"
-LEVEL_NOTE = ""
+LEVEL_TEXT = ("Lean 4 theorems for ALL octet strings / contents / arcs: Oid::from_str equals the reference parser on EVERY string - the X.690 encoding of the arcs or an error, never a panic (fromStr_eq_spec; u32 parsing with early abort = all-digits-then-range, parseU32_eq; sub-identifier writer = base-128 digits, encodeItem_eq); content is accepted by take and skip alike exactly when non-empty with the last octet ending a sub-identifier, match-and-skip succeeds iff the content equals the expected octets (checkContent_iff, fromPrimitive_exhausted, skipPrimitive_exhausted, skipIfPrimitive_exhausted, take_skip_alike); the component iterator of an accepted content yields the sub-identifiers with the first one twice, without panic (components_eq, components_ok_iff); Component::to_u32 returns the arc when the sub-identifier fits 32 bits and None otherwise - never a wrong number (toU32_eq, toU32_base128, numbers_arcs); Display prints the dotted decimal text of those numbers (decimal_eq, display_numbers, display_arcs); round trips text -> encoding -> arcs/text -> encoding (fromStr_some, display_fromStr, fromStr_dotted, fromStr_display_fromStr). Correspondence: arcs around 39/40/79/80/127/128/2^28/2^32 boundaries, malformed texts, 5- and 6-octet sub-identifiers, truncated contents.")
+LEVEL_NOTE = ("Trusted: Lean 4.33 kernel; axioms propext, Classical.choice, Quot.sound only; the hand-written model (lean/Bcder/Model/Oid.lean) tied to /repo on every run by differential correspondence; reference definitions lean/Bcder/Spec/Values.lean. Comparison and hashing of Oid delegate to the content octets in Rust and have no model item: covered by the correspondence check only. Non-minimal sub-identifiers (leading 0x80) are outside the property's hypothesis; toU32_eq still states exactly what is returned for them.")
